@@ -71,7 +71,7 @@ def ForkIter (body : String → List Key → M (ForInStep (List Key))) (f : FUid
     ∃ s1 hg, body label acc s = .ok (.yield (acc ++ [(f, uidOf (s.r.nextUid + 1))])) s1 ∧
       s1.ixs = s.ixs.apply (.fork f (uidOf (s.r.nextUid + 1)) none p none) hg ∧
       s1.r.nextUid = s.r.nextUid + 1 ∧ s1.r.fx = s.r.fx ∧ s1.r.prog = s.r.prog ∧
-      s1.r.hx = hxAfter f h (uidOf (s.r.nextUid + 1)) a s.r.hx
+      s1.r.hx = hxAfter f h (uidOf (s.r.nextUid + 1)) a s.r.hx ∧ s1.r.choices = s.r.choices
 
 def newKeys (f : FUid) (n : Nat) : Nat → List Key
   | 0 => []
@@ -88,7 +88,7 @@ theorem forkLoop_spec (body : String → List Key → M (ForInStep (List Key))) 
       i.status.listening = true → (∀ m, m > s.r.nextUid → uidOf m ∉ i.headUids) →
       ∃ s' i', forIn (lps.map (·.1)) acc body s = .ok (acc ++ newKeys f s.r.nextUid lps.length) s' ∧
         FlowAt s' f i' x cfg ∧ hview i' = hview i ++ newView s.r.nextUid (lps.map (·.2)) ∧
-        s'.r.nextUid = s.r.nextUid + lps.length ∧ i'.status = i.status ∧
+        s'.r.nextUid = s.r.nextUid + lps.length ∧ i'.status = i.status ∧ s'.r.choices = s.r.choices ∧
         -- the HeadX records: the forking head lists the new heads as its children, the new heads have none
         (∀ a0, OMap.lookup (f, h) s.r.hx = some a0 → (∀ m, m > s.r.nextUid → uidOf m ≠ h) →
           (∀ m, m > s.r.nextUid → OMap.lookup (f, uidOf m) s.r.hx = none) →
@@ -100,13 +100,13 @@ theorem forkLoop_spec (body : String → List Key → M (ForInStep (List Key))) 
   induction lps with
   | nil =>
     intro acc s i F _ _ _
-    refine ⟨s, i, by simp [newKeys, pure, EStateM.pure], F, by simp [newView], rfl, rfl, ?_⟩
+    refine ⟨s, i, by simp [newKeys, pure, EStateM.pure], F, by simp [newView], rfl, rfl, rfl, ?_⟩
     intro a0 ha0 _ _
     exact ⟨by simpa [newKeys] using ha0, by intro k hk; simp [newKeys] at hk, fun _ _ _ => rfl⟩
   | cons lp lps ih =>
     intro acc s i F hl hlist hfresh
     obtain ⟨h1, h2, h3⟩ := hl lp (by simp)
-    obtain ⟨s1, hg, hb, hix, hn, hfx, hprog, hhx1⟩ := hiter lp.1 acc s i lp.2 F h1 h2 h3 hlist (hfresh _ (by omega))
+    obtain ⟨s1, hg, hb, hix, hn, hfx, hprog, hhx1, hch1⟩ := hiter lp.1 acc s i lp.2 F h1 h2 h3 hlist (hfresh _ (by omega))
     obtain ⟨i1, hi1, hv1, hs1⟩ := findInst_fork s.ixs.ix f (uidOf (s.r.nextUid + 1)) i lp.2 F.hi h2 (hfresh _ (by omega))
     have F1 : FlowAt s1 f i1 x cfg :=
       { hi := by rw [hix]; exact hi1, hx := by rw [hfx]; exact F.hx, hc := by rw [hprog]; exact F.hc }
@@ -119,9 +119,9 @@ theorem forkLoop_spec (body : String → List Key → M (ForInStep (List Key))) 
       · simp only [List.map_cons, List.map_nil, List.mem_singleton] at h
         have := uidOf_inj h
         omega
-    obtain ⟨s', i', hrun, F', hv', hn', hs', hhx'⟩ := ih (acc ++ [(f, uidOf (s.r.nextUid + 1))]) s1 i1 F1
+    obtain ⟨s', i', hrun, F', hv', hn', hs', hch', hhx'⟩ := ih (acc ++ [(f, uidOf (s.r.nextUid + 1))]) s1 i1 F1
       (fun q hq => hl q (by simp [hq])) (by rw [hs1]; exact hlist) hfresh1
-    refine ⟨s', i', ?_, F', ?_, by rw [hn', hn]; simp; omega, by rw [hs', hs1], ?_⟩
+    refine ⟨s', i', ?_, F', ?_, by rw [hn', hn]; simp; omega, by rw [hs', hs1], by rw [hch', hch1], ?_⟩
     · simp only [List.map_cons, List.forIn_cons, bind, EStateM.bind, hb]
       rw [hrun, hn]
       simp [newKeys]
@@ -176,7 +176,7 @@ theorem slideStep_fork (fuel : Nat) (s : VM) (f : FUid) (h : HUid) (i : Inst) (x
     ∃ s' i' x', slideStep fuel f h s = .ok (true, newKeys f s.r.nextUid lps.length) s' ∧ FlowAt s' f i' x' cfg ∧
       x'.forkUids = OMap.insert u h x.forkUids ∧ x'.ctxOwner = x.ctxOwner ∧
       hview i' = (hview i).map (setStCore h .inactive) ++ newView s.r.nextUid (lps.map (·.2)) ∧
-      s'.r.nextUid = s.r.nextUid + lps.length ∧ i'.status = i.status ∧
+      s'.r.nextUid = s.r.nextUid + lps.length ∧ i'.status = i.status ∧ s'.r.choices = s.r.choices ∧
       (∀ a0, OMap.lookup (f, h) s.r.hx = some a0 → (∀ m, m > s.r.nextUid → OMap.lookup (f, uidOf m) s.r.hx = none) →
         OMap.lookup (f, h) s'.r.hx = some { a0 with childHeadUids := a0.childHeadUids ++ (newKeys f s.r.nextUid lps.length).map (·.2) } ∧
         (∀ k ∈ newKeys f s.r.nextUid lps.length, ((OMap.lookup k s'.r.hx).getD {}).childHeadUids = [] ∧
@@ -215,10 +215,11 @@ theorem slideStep_fork (fuel : Nat) (s : VM) (f : FUid) (h : HUid) (i : Inst) (x
     have e4 : t'.r.nextUid = t.r.nextUid + 1 := by rw [← ht']
     have e5 : t'.r.hx = hxAfter f h (uidOf (t.r.nextUid + 1)) ((OMap.lookup (f, h) s.r.hx).getD {}) t.r.hx := by
       rw [← ht']; rfl
+    have e6 : t'.r.choices = t.r.choices := by rw [← ht']
     have hgf' : (Op.fork f (uidOf (t.r.nextUid + 1)) none p none).guard t'.ixs.ix = true := by rw [e1]; exact hgf
     rw [hnf t' e1 e2 e3]
     simp only [bind, EStateM.bind, applyOp, hgf', dite_true, pure, EStateM.pure]
-    exact ⟨_, by rw [← e1]; exact hgf', rfl, by simp only [e1], e4, e2, e3, e5⟩
+    exact ⟨_, by rw [← e1]; exact hgf', rfl, by simp only [e1], e4, e2, e3, e5, e6⟩
   generalize hs2 : ({ ixs := s.ixs.apply (.setStatus f h .inactive none) hg0, r := _ } : VM) = s2
   have F2 : FlowAt s2 f (i.modifyHead h fun y => { y with status := .inactive, elem := none }) x' cfg := by
     rw [← hs2]
@@ -229,8 +230,9 @@ theorem slideStep_fork (fuel : Nat) (s : VM) (f : FUid) (h : HUid) (i : Inst) (x
     rw [headUids_modifyHead i h (fun y => { y with status := .inactive, elem := none }) (fun _ => rfl)]
     exact hfresh m (by omega)
   have hhx2 : s2.r.hx = s.r.hx := by rw [← hs2]
-  obtain ⟨s', i', hrun, F', hv', hn', hst', hhx'⟩ := forkLoop_spec body f h _ x' cfg hiter lps [] s2 _ F2 hl hlist hfresh2
-  refine ⟨s', i', x', ?_, F', rfl, rfl, ?_, by rw [hn', hn2], by rw [hst']; rfl, ?_⟩
+  have hch2 : s2.r.choices = s.r.choices := by rw [← hs2]
+  obtain ⟨s', i', hrun, F', hv', hn', hst', hch', hhx'⟩ := forkLoop_spec body f h _ x' cfg hiter lps [] s2 _ F2 hl hlist hfresh2
+  refine ⟨s', i', x', ?_, F', rfl, rfl, ?_, by rw [hn', hn2], by rw [hst']; rfl, by rw [hch', hch2], ?_⟩
   · rw [hrun, hn2]; simp
   · rw [hv', hview_setStatus, hn2]
   · intro a0 ha0 hfx0
@@ -375,7 +377,8 @@ theorem slideStep_catch_push (fuel : Nat) (s : VM) (f : FUid) (h : HUid) (i : In
     (H : HeadAt s f h i x cfg hd) (hel : cfg.elements[hd.pos]! = .catchFail (some l)) (hnm : NotMatchAt cfg (hd.pos + 1)) :
     ∃ s1 hg, slideStep fuel f h s = .ok (false, []) s1 ∧ s1.ixs = s.ixs.apply (.setPos f h (hd.pos + 1) none) hg ∧
       s1.r.fx = s.r.fx ∧ s1.r.prog = s.r.prog ∧ s1.r.nextUid = s.r.nextUid ∧
-      s1.r.hx = OMap.modify (f, h) (fun y => { y with catchLabels := y.catchLabels ++ [l] }) s.r.hx := by
+      s1.r.hx = OMap.modify (f, h) (fun y => { y with catchLabels := y.catchLabels ++ [l] }) s.r.hx ∧
+      s1.r.choices = s.r.choices := by
   have hge : decide (hd.pos ≥ cfg.elements.size) = false := by simp; exact H.hlt
   have hin : decide (hd.status = HeadStatus.inactive) = false := by simp [H.hst]
   unfold slideStep
@@ -384,6 +387,7 @@ theorem slideStep_catch_push (fuel : Nat) (s : VM) (f : FUid) (h : HUid) (i : In
     modHeadX, modifyRest, modify, modifyGet, MonadStateOf.modifyGet, EStateM.modifyGet]
   generalize ht : ({ ixs := s.ixs, r := _ } : VM) = t
   have e5 : t.r.hx = OMap.modify (f, h) (fun y => { y with catchLabels := y.catchLabels ++ [l] }) s.r.hx := by rw [← ht]
+  have e6 : t.r.choices = s.r.choices := by rw [← ht]
   have e1 : t.ixs = s.ixs := by rw [← ht]
   have e2 : t.r.fx = s.r.fx := by rw [← ht]
   have e3 : t.r.prog = s.r.prog := by rw [← ht]
@@ -391,7 +395,7 @@ theorem slideStep_catch_push (fuel : Nat) (s : VM) (f : FUid) (h : HUid) (i : In
   have Ft : FlowAt t f i x cfg := { hi := by rw [e1]; exact H.hi, hx := by rw [e2]; exact H.hx, hc := by rw [e3]; exact H.hc }
   obtain ⟨hg, hset⟩ := setHeadPos_ok t f h i x cfg hd (hd.pos + 1) Ft H.hh (by omega) hnm
   rw [hset]
-  exact ⟨_, by rw [← e1]; exact hg, rfl, by simp only [e1], e2, e3, e4, e5⟩
+  exact ⟨_, by rw [← e1]; exact hg, rfl, by simp only [e1], e2, e3, e4, e5, e6⟩
 
 def newsOf (n : Nat) : List Nat → List (HUid × Nat)
   | [] => []
@@ -448,12 +452,13 @@ theorem fork_segment (fuel : Nat) (s : VM) (f : FUid) (h : HUid) (i : Inst) (x :
       hview i2 = (hview i).map (setCore h (hd.pos + 1) .inactive) ++
         (newView s.r.nextUid (lps.map (·.2))).map (fun t => (t.1, t.2.1 + 1, t.2.2)) ∧
       x'.forkUids = OMap.insert u h x.forkUids ∧ i2.status = i.status ∧ s2.r.nextUid = s.r.nextUid + lps.length ∧
+      s2.r.choices = s.r.choices ∧
       (∀ a0, OMap.lookup (f, h) s.r.hx = some a0 → (∀ m, m > s.r.nextUid → OMap.lookup (f, uidOf m) s.r.hx = none) →
         ((OMap.lookup (f, h) s2.r.hx).getD {}).childHeadUids = a0.childHeadUids ++ (newKeys f s.r.nextUid lps.length).map (·.2) ∧
         (∀ k ∈ newKeys f s.r.nextUid lps.length, ((OMap.lookup k s2.r.hx).getD {}).childHeadUids = [] ∧
           ((OMap.lookup k s2.r.hx).getD {}).scores = a0.scores)) := by
   have hnmf : NotMatchAt cfg (hd.pos + 1) := notMatchAt_of cfg (hd.pos + 1) _ hsz hfork rfl
-  obtain ⟨sa, hga, hstepa, hixa, hfxa, hproga, hna, hhxa⟩ := slideStep_catch_push (fuel + 1) s f h i x cfg hd fl H hcatch hnmf
+  obtain ⟨sa, hga, hstepa, hixa, hfxa, hproga, hna, hhxa, hcha⟩ := slideStep_catch_push (fuel + 1) s f h i x cfg hd fl H hcatch hnmf
   have hia := findInst_setPos s.ixs.ix f h i hd (hd.pos + 1) none H.hi H.hh (by omega)
   have Ha : HeadAt sa f h (i.modifyHead h fun y => { y with pos := hd.pos + 1, elem := none }) x cfg { hd with pos := hd.pos + 1, elem := none } :=
     { hi := by rw [hixa]; exact hia, hx := by rw [hfxa]; exact H.hx, hc := by rw [hproga]; exact H.hc,
@@ -462,7 +467,7 @@ theorem fork_segment (fuel : Nat) (s : VM) (f : FUid) (h : HUid) (i : Inst) (x :
     intro m hm
     rw [headUids_modifyHead i h (fun y => { y with pos := hd.pos + 1, elem := none }) (fun _ => rfl)]
     exact hfresh m (by omega)
-  obtain ⟨s1, i1, x', hstepb, F1, hfux, hown, hv1, hn1, hst1, hhxf⟩ := slideStep_fork fuel sa f h _ x cfg _ u lps Ha hfork hl hlis hfresha
+  obtain ⟨s1, i1, x', hstepb, F1, hfux, hown, hv1, hn1, hst1, hch1, hhxf⟩ := slideStep_fork fuel sa f h _ x cfg _ u lps Ha hfork hl hlis hfresha
   -- the view after the fork
   have hpre : (hview (i.modifyHead h fun y => { y with pos := hd.pos + 1, elem := none })).map (setStCore h .inactive)
       = (hview i).map (setCore h (hd.pos + 1) .inactive) := by
@@ -496,7 +501,7 @@ theorem fork_segment (fuel : Nat) (s : VM) (f : FUid) (h : HUid) (i : Inst) (x :
   have hlis1 : i1.status.listening = true := by rw [hst1]; exact hlis
   obtain ⟨s2, i2, hrun, F2, hr2, hv2, hst2⟩ := advanceNews_spec fuel f x' cfg (newsOf s.r.nextUid (lps.map (·.2)))
     ((hview i).map (setCore h (hd.pos + 1) .inactive)) s1 i1 F1 hlis1 hnd1 hv1 hshape
-  refine ⟨s1, s2, i2, x', ?_, ?_, F2, hown, ?_, hfux, by rw [hst2, hst1]; rfl, by rw [hr2, hn1, hna], ?_⟩
+  refine ⟨s1, s2, i2, x', ?_, ?_, F2, hown, ?_, hfux, by rw [hst2, hst1]; rfl, by rw [hr2, hn1, hna], by rw [hr2, hch1, hcha], ?_⟩
   · simp only [slide, slideLoop, bind, EStateM.bind, hstepa, hstepb, Bool.false_eq_true, if_false, if_true, pure, EStateM.pure,
       List.nil_append, hna]
   · rw [← List.length_map (f := fun (lp : String × Nat) => lp.2), newKeys_snd]
